@@ -194,38 +194,18 @@ theorem token_single (s w : String) (hw : w ∈ splitWs s) : (splitWs w).length 
   rw [splitWsAux_word l [] hnows (Or.inr hne)]
   simp
 
-theorem isXsdDouble_py (t : String) (h : isXsdDouble t = true) : (isPyFinite t || isPySpecial t) = true := by
-  unfold isXsdDouble at h
-  simp only [Bool.or_eq_true, beq_iff_eq] at h
-  rcases h with (((h | h) | h) | h) | h
-  · simp [h]
-  · subst h; decide +kernel
-  · subst h; decide +kernel
-  · subst h; decide +kernel
-  · subst h; decide +kernel
+/-- **the decoder's constructors ARE the XSD lexical mappings** on every builtin and every text that
+is at most one token with surrounding white space (since fixes F20a and F20i): `value.__class__(s)` /
+`BooleanProxy` / `DecimalProxy` / `DoubleProxy` succeed exactly on the valid literals, with the
+same value -/
+theorem pyDecode_eq_xsdLex (b : B) (s : String) (h1 : (splitWs s).length ≤ 1) :
+    pyDecode b s = xsdLex b (normalize b s) := by
+  have hcs := collapse_eq_strip s h1
+  cases b <;> simp only [normalize, wsOf, xsdLex, pyDecode, hcs] <;>
+    (try (cases hi : intOfLex? (strip s) <;> with_reducible rfl))
 
-/-- **the decoder's constructor agrees with the XSD lexical mapping** on every builtin and every text
-that is at most one token: if the literal is valid (the spec maps it to `a`), `value.__class__(s)`
-returns `a` -/
 theorem pyDecode_of_xsdLex (b : B) (s : String) (h1 : (splitWs s).length ≤ 1) (a : Atom)
     (h : xsdLex b (normalize b s) = some a) : pyDecode b s = some a := by
-  have hcs := collapse_eq_strip s h1
-  cases b
-  case decimal =>
-    simp only [normalize, wsOf, xsdLex, pyDecode, hcs] at h ⊢
-    cases hd : decOfLex? (strip s) with
-    | none => rw [hd] at h; simp at h
-    | some c => rw [hd] at h; simpa using h
-  case double =>
-    simp only [normalize, wsOf, xsdLex, pyDecode, hcs] at h ⊢
-    split at h
-    · rename_i hx
-      rw [isXsdDouble_py _ hx]; simpa using h
-    · cases h
-  all_goals
-    simp only [normalize, wsOf, xsdLex, pyDecode, hcs] at h ⊢
-    first
-      | (with_reducible exact h)
-      | (cases hi : intOfLex? (strip s) <;> simp only [hi] at h ⊢ <;> with_reducible exact h)
+  rw [pyDecode_eq_xsdLex b s h1]; exact h
 
 end EPV.Xsd
